@@ -2,6 +2,7 @@ import Flowjaxv.Proofs.ArrTheory
 import Flowjaxv.Proofs.ArrGen
 import Flowjaxv.Proofs.Leaves
 import Flowjaxv.Proofs.Flows
+import Flowjaxv.Proofs.CtorsGen
 /-!
 # C08 — combinators mean what their definitions say, for every shape and axis
 
@@ -650,6 +651,66 @@ theorem gen_embed_eq_model {C' : Type} (g : EmbedCondition κ C C' α) (b : SBij
 theorem gen_embed_lawful {C' : Type} (g : EmbedCondition κ C C' α) {D E : Set (Arr κ)}
     (hb : g.bijection.toBij.Lawful D E) : g.toBij.Lawful D E := by
   rw [ArrGen.embed_eq]; exact ArrComb.embed_lawful _ hb
+
+/-! ### generated guard + generated value = the C13 constructor
+
+`Gen/ArrCombinators.lean` translates the VALUE computations of the constructors and records the argument-check calls
+(`self._argcheck_shapes(shapes)`, `check_shapes_match(shapes)`) as guards; `Gen/CtorsGen.lean` (py2ctor, C13) translates
+the same constructors in exception-valued form, guards included.  Whenever the exception-valued constructor accepts
+— which by `C13.gen_*_ctor_eq` is exactly when the C13 hand model does — the fields it returns are the fields the
+value-level `__init__` of this file sets. -/
+
+/-- the shape-level view of a child: its declared `shape` / `cond_shape` -/
+def sbOf (b : SBij (Arr κ) C α) : PyCtor.SB := ⟨b.shape, b.cond_shape⟩
+
+theorem accumulate_eq (l : List Nat) : ArrJnp.accumulate l = PyCtor.accumulate l := by
+  induction l with
+  | nil => rfl
+  | cons a l ih => simp only [ArrJnp.accumulate, PyCtor.accumulate, ih]
+
+theorem gen_concatenate_ctor_guard_value (bs : List (SBij (Arr κ) C α)) (axis : Int) (r : GenCtors.ConcatenateF)
+    (h : GenCtors.Concatenate.init (bs.map sbOf) axis = .ok r) :
+    ArgCheck.concatenateCtor (bs.map (·.shape)) (bs.map (·.cond_shape)) axis = .ok (r.shape, r.cond_shape)
+    ∧ (Concatenate.init bs axis).shape = r.shape ∧ (Concatenate.init bs axis).cond_shape = r.cond_shape
+    ∧ (Concatenate.init bs axis).axis = r.axis ∧ (Concatenate.init bs axis).split_idxs = r.split_idxs := by
+  have hm1 : (bs.map sbOf).map (·.shape) = bs.map (·.shape) := by rw [List.map_map]; rfl
+  have hm2 : (bs.map sbOf).map (·.cond_shape) = bs.map (·.cond_shape) := by rw [List.map_map]; rfl
+  have hc : ArgCheck.concatenateCtor (bs.map (·.shape)) (bs.map (·.cond_shape)) axis = .ok (r.shape, r.cond_shape) := by
+    rw [← hm1, ← hm2, ← CtorsGen.gen_concatenate_ctor_eq, h]; rfl
+  obtain ⟨ax, h1, h2, -, h4, -⟩ := ArrGen.concatenate_init_spec bs axis hc
+  obtain ⟨ha, s0, ax', hh, hN, hsp⟩ := CtorsGen.gen_concatenate_fields (bs.map sbOf) axis r h
+  refine ⟨hc, h1, h2, by rw [h4, ha], ?_⟩
+  rw [hsp, hm1] at *
+  have hfirst : first (bs.map (·.shape)) = s0 := by
+    unfold first; cases hl : bs.map (·.shape) with
+    | nil => rw [hl] at hh; simp at hh
+    | cons a l => rw [hl] at hh; simp at hh; simp [hh]
+  show ArrJnp.accumulate (List.map (fun s => shapeGet s (rangeGet (((first (List.map (fun b => b.shape) bs)).length : Nat) : Int) axis))
+      (List.dropLast (List.map (fun b => b.shape) bs))) = _
+  rw [hfirst, ArrGen.rangeGet_of_argcheck hN, accumulate_eq, List.map_dropLast, List.map_map, List.map_map]
+  congr 2
+
+theorem gen_stack_ctor_guard_value (bs : List (SBij (Arr κ) C α)) (axis : Int) (r : GenCtors.StackF)
+    (h : GenCtors.Stack.init (bs.map sbOf) axis = .ok r) :
+    ArgCheck.stackCtor (bs.map (·.shape)) (bs.map (·.cond_shape)) axis = .ok (r.shape, r.cond_shape)
+    ∧ (Stack.init bs axis).shape = r.shape ∧ (Stack.init bs axis).cond_shape = r.cond_shape
+    ∧ (Stack.init bs axis).axis = r.axis := by
+  have hm1 : (bs.map sbOf).map (·.shape) = bs.map (·.shape) := by rw [List.map_map]; rfl
+  have hm2 : (bs.map sbOf).map (·.cond_shape) = bs.map (·.cond_shape) := by rw [List.map_map]; rfl
+  have hc : ArgCheck.stackCtor (bs.map (·.shape)) (bs.map (·.cond_shape)) axis = .ok (r.shape, r.cond_shape) := by
+    rw [← hm1, ← hm2, ← CtorsGen.gen_stack_ctor_eq, h]; rfl
+  obtain ⟨ax, cs, h1, h2, -, h4, -⟩ := ArrGen.stack_init_spec bs axis hc
+  exact ⟨hc, h1, h2, by rw [h4, CtorsGen.gen_stack_fields _ _ _ h]⟩
+
+theorem gen_reshape_ctor_guard_value (b : SBij (Arr κ) (Arr κ) α) (shape? cond? : Option PyShape.Shape)
+    (r : GenCtors.ReshapeF) (h : GenCtors.Reshape.ctor ⟨b.shape, b.cond_shape⟩ shape? cond? = .ok r) :
+    ArgCheck.reshapeCtor b.shape b.cond_shape shape? cond? = .ok (r.shape, r.cond_shape)
+    ∧ (Reshape.init b shape? cond?).shape = r.shape ∧ (Reshape.init b shape? cond?).cond_shape = r.cond_shape := by
+  have hc : ArgCheck.reshapeCtor b.shape b.cond_shape shape? cond? = .ok (r.shape, r.cond_shape) := by
+    have := CtorsGen.gen_reshape_ctor_eq ⟨b.shape, b.cond_shape⟩ shape? cond?
+    rw [h] at this; exact this.symm
+  obtain ⟨h1, h2, -⟩ := ArrGen.reshape_init_spec b shape? cond? hc
+  exact ⟨hc, h1, h2⟩
 
 end generated
 
